@@ -314,8 +314,16 @@ def mk_entry(e):
     raise KeyError(k)
 
 
+def mk_entry_ro(e):
+    """mk_entry, honouring 'ro' (read-only index object) """
+    obj = mk_entry({k: v for k, v in e.items() if k != 'ro'})
+    if e.get('ro') and isinstance(obj, Qube):
+        obj = obj.as_readonly()
+    return obj
+
+
 def mk_index(case):
-    ents = [mk_entry(e) for e in case['index']]
+    ents = [mk_entry_ro(e) for e in case['index']]
     if case.get('bare') and len(ents) == 1:
         return ents[0]
     return tuple(ents)
